@@ -1098,7 +1098,8 @@ pub fn trace_random(ctx: &Ctx, seed: u64, runs: usize, dump: Option<usize>, out:
             let mut cb = None;
             on_send.push(match reactions[i] {
                 "good" => vec![payload],
-                "bad" => malformed_batch(&mut rng, sec, &payload, goldsrc_split(&engine)).0,
+                // (one datagram: the trace projection explains every consumed datagram by one reaction)
+                "bad" => vec![malformed(&mut rng, sec, &payload).0],
                 "silent" => vec![],
                 "chal" => {
                     let c = strat_challenge(&mut rng, None);
